@@ -10,6 +10,8 @@ from harness import common as C
 from harness import partlib as L
 
 TRUSTED = [
+    "translators/paths2coq.py (Python ast -> Gallina; fail closed) and its prelude coq/theories/Impl/PyPaths.v (what a break-search loop, %s formatting, rsplit(c, 1)[0], len(set(l)), truth values, isinstance(o, pd.Timestamp) / isoformat / str mean), the template of the _path_to_cats loop skeleton; the regenerated text is also evaluated by the kernel "
+    "against the real functions on sampled inputs on every run",
     "Coq 8.16.1 kernel + coqc (vm_compute only for the closed Example); no native_compute",
     "extraction: ExtrOcamlBasic only, no Extract Constant; ocaml/driver.ml s-expression I/O",
     "what api.ParquetFile shows of one file (file_scheme, schema, row groups) is an input of the merge model; reading one "
@@ -92,6 +94,8 @@ def run(ctx):
         L.coqchk_props(ctx, "C14")
     bad = C.hygiene()
     ctx.obligation("hygiene: no Admitted/Axiom/Parameter/... in coq/", not bad, "; ".join(bad))
+    # tie 1 (translator): util.analyse_paths & co regenerated from the working tree, C14_basepath re-proved on the regenerated text
+    ctx.gen_paths = L.paths_translator(ctx)
     C.use_shadow()
     pq = C.Pqref()
     try:
@@ -127,6 +131,10 @@ def _run(ctx, pq):
         cmds.append(("analyse_paths", [L.enc(p) for p in paths], [] if root is None else [L.enc(root)]))
         meta.append(({"corr": "analyse_paths", "shape": shape, "paths": paths, "root": root}, impl))
     outs_a = pq.batch(cmds)
+    if getattr(ctx, "gen_paths", False):       # the regenerated text itself, evaluated by the kernel, against the real functions
+        pick = [m[0] for m in meta if all(L.coq_ascii_ok(p) for p in m[0]["paths"]) and m[0]["paths"]]
+        pick = rng.sample(pick, min(len(pick), 40))
+        L.gen_paths_samples(ctx, [(c["paths"], c["root"]) for c in pick] + [([], None)], [p for c in pick[:12] for p in c["paths"][:2]])
     samples = []
     L.sample_pq(samples, cmds, outs_a, rng, 10)
     for cmd in [("merge", [b"/d/a.parquet", b"/d/b.parquet", b"/d/c.parquet"],
@@ -170,6 +178,13 @@ def _run(ctx, pq):
     for vc, res in zip(vcases, L.run_dataset_jobs(ctx, check_verify, vcases, "v", lambda c: {"verify_case": c})):
         ctx.case({"verify": vc}, trivial=False)
         ctx.count("V.attribute", vc["attr"])
+    # ---- several colliding datasets in one process (stream P)
+    pcases = [gen_pair_case(rng, i) for i in range(12 if quick else 80)]
+    for pc, res in zip(pcases, L.run_dataset_jobs(ctx, check_pair, pcases, "p", lambda c: {"pair_case": c})):
+        ctx.case({"pair": pc}, trivial=res.get("trivial", False))
+        ctx.count("P.pair", pc["pair"])
+        for v in res.get("vias", []):
+            ctx.count("P.via", v)
     for case, res in zip(cases, results):
         ctx.case(case, trivial=(len(case["files"]) == 1 and case["root_mode"] == "inferred"))
         ctx.count("B.shape", case["shape"])
@@ -197,11 +212,17 @@ def gen_dataset_case(rng, confirm, i):
         cat_mode = "same"
     elif rng.random() < 0.3:
         cat_mode = "grow"              # label sets that grow from file to file (each a prefix of the next): must work
+    elif rng.random() < 0.25:
+        cat_mode = "unused"            # dictionaries that differ only in labels no row uses: inside the proved guard, must work
     grow_sizes = sorted(rng.choice([2, 3, 5, 100, 127, 128, 130, 200, 300]) for _ in range(k))
     files = []
     off = 0
     levels = rng.choice([1, 2])
     ext = rng.choice([".parquet", ".parquet", ".parq"])
+    # directory and file NAMES are data: names of partition columns, partition values and files that start with '_' or '.',
+    # hold spaces, '%', non-ASCII letters must neither vanish from a listing nor change the rows
+    key0 = rng.choice(["k", "k", "k", "_grp", ".dot", "my col", "ü", "k%41"])
+    odd_file = rng.choice(["", "", "", "_", ".", "_tmp.", "%20"])
     for j in range(k):
         n = rng.choice([0, 1, 2, 3, 5, 8])
         if objbool:
@@ -209,23 +230,27 @@ def gen_dataset_case(rng, confirm, i):
         if shape == "flat":
             d = []
         elif shape == "hive":
-            d = ["k=%s" % rng.choice(["a", "b", "zz", "[x]", "a*b", "q?"]), "n=%d" % rng.choice([1, 2, 30])][:levels]   # values are data, not globs
+            d = ["%s=%s" % (key0, rng.choice(["a", "b", "zz", "[x]", "a*b", "q?", "_na", ".x", "a b", "100%", "é", "_"])),
+                 "n=%d" % rng.choice([1, 2, 30])][:levels]   # values are data, not globs
         elif shape == "drill":
-            d = [rng.choice(["a", "b", "zz", "[x]", "a*b"]), rng.choice(["u", "w"])][:levels]
+            d = [rng.choice(["a", "b", "zz", "[x]", "a*b", "_na", ".hid", "a b", "_", "é"]), rng.choice(["u", "w", "_w"])][:levels]
         else:
             d = ["sub%d" % j]
-        name = ("f%d%s%s" % (j, rng.choice(["", "", "[1]", "-x y"]), ext)) if shape != "subdatasets" else ""
+        name = ("%sf%d%s%s" % (odd_file if rng.random() < 0.6 else "", j, rng.choice(["", "", "[1]", "-x y"]), ext)) if shape != "subdatasets" else ""
         if cat_mode == "differ":
             cats = rng.sample(["p", "q", "r", "s", "t"], rng.choice([2, 3]))
         elif cat_mode == "same":
             cats = ["p", "q", "r"]
         elif cat_mode == "grow":
             cats = ["l%03d" % x for x in range(grow_sizes[j])]
+        elif cat_mode == "unused":
+            cats = ["p", "q"] + rng.sample(["r", "s", "t", "u"], rng.choice([0, 1, 2]))
         else:
             cats = None
         files.append({"dir": d, "name": name, "n": n, "off": off, "codec": rng.choice([None, None, "GZIP", "SNAPPY", "ZSTD"]),
                       # "each": one row group per row - a footer much larger than the first file's (second fetch of the fast path)
-                      "rgo": rng.choice([None, None, 2, "each"]) if n > 2 else None, "cats": cats, "objbool": objbool})
+                      "rgo": rng.choice([None, None, 2, "each"]) if n > 2 else None, "cats": cats, "objbool": objbool,
+                      "used": 2 if cat_mode == "unused" else None})
         off += n + 1
     if shape in ("hive", "drill") and rng.random() < 0.5:
         root_mode = "given"
@@ -253,7 +278,7 @@ def _frame(spec, bad=False):
          "v": np.array([(x * 0.5 if x % 3 else float("nan")) for x in range(off, off + n)], dtype="float64"),
          "s": pd.Series(["r%d" % x for x in range(off, off + n)], dtype="str")}
     if spec["cats"]:
-        m = len(spec["cats"])       # low and high codes alike
+        m = spec.get("used") or len(spec["cats"])       # low and high codes alike
         d["c"] = pd.Categorical.from_codes([((m - 1 - x) if x % 2 else x) % m for x in range(n)], categories=spec["cats"])
     if spec.get("objbool"):
         d["b"] = np.array([bool(x % 2) for x in range(n)] + [None], dtype=object)[:-1]
@@ -349,7 +374,7 @@ def check_dataset(case, root, pq, ctx=None, verbose=False):
 
     cls0 = {"shape": shape, "relative": bool(case.get("relative")), "categorical": case["cat_mode"],
             "object_column_first_file_empty": objbool,
-            "dictionaries_differ": case["cat_mode"] in ("differ", "grow") and len({tuple(f["cats"]) for f in case["files"]}) > 1}
+            "dictionaries_differ": case["cat_mode"] in ("differ", "grow", "unused") and len({tuple(f["cats"]) for f in case["files"]}) > 1}
 
     def nested(order):
         """every file's label list is a prefix of the label list of the last file that has rows (in this order):
@@ -357,9 +382,29 @@ def check_dataset(case, root, pq, ctx=None, verbose=False):
         cl = [case["files"][j]["cats"] for j in order if case["files"][j]["n"] > 0 and case["files"][j]["cats"]]
         return bool(cl) and all(c == cl[-1][:len(c)] for c in cl)
 
+    label_ids = {}
+
+    def cat_chunks(order):
+        """the categorical column of the files in this order as chunks of Dataset/CatRead.v: (own dictionary, codes); one chunk
+        per file (all row groups of a file carry the file's dictionary); files without rows have no dictionary page"""
+        chunks = []
+        for j in order:
+            s = singles[j]["c"]
+            if len(s) == 0:
+                continue
+            d = [label_ids.setdefault(str(x), len(label_ids)) for x in s.cat.categories]
+            chunks.append([[d], [int(c) for c in s.cat.codes]])
+        return chunks
+
     def compare(via, fn, order, base_dir, **kw):
         vias.append(via)
         cls = dict(cls0, via=via, dictionaries_nested=nested(order))
+        chunks = None
+        if "c" in cols and case["bad_schema"] is None:
+            # the EXACT guard of C14_categorical_labels_partial / _guard_exact, decided by the extracted Dataset/CatGuard.guard_b:
+            # every code that occurs means the same label under its own dictionary and under the dictionary read last
+            chunks = cat_chunks(order)
+            cls["cat_guard"] = pq.call("cat_guard", [], chunks) == 1
         try:
             pf = fn()
             df = pf.to_pandas()
@@ -378,6 +423,18 @@ def check_dataset(case, root, pq, ctx=None, verbose=False):
         if case["bad_schema"] is not None:
             return pf           # different dtypes without verification: outside the statement
         nrows = sum(len(singles[j]) for j in order)
+        if chunks is not None and ctx is not None and "c" in df.columns and len(df) == nrows:
+            # model of the reader (one label list for the whole column, replaced by every dictionary page) = what was read
+            try:
+                mcats = [str(x) for x in df["c"].cat.categories]
+                impl = [[] if c < 0 else ([label_ids.setdefault(mcats[c], len(label_ids))] if c < len(mcats) else ["bad", int(c)])
+                        for c in (int(x) for x in df["c"].cat.codes.to_numpy())]
+            except Exception as e:      # noqa
+                impl = "raises %s" % type(e).__name__
+            mo = pq.call("read_cat", [], chunks)
+            model = [[("bad" if isinstance(x, (bytes, bytearray)) else x) for x in cell] for cell in mo] if isinstance(mo, list) else mo
+            ctx.correspondence("CatRead.read_cat(per-file dictionaries and codes) ~ categorical column of the merged read",
+                               dict(_replayable(case), via=via), model, impl)
         try:        # the row-group iterator of the merged handle walks the same rows in the same order
             it_ids = [int(x) for fr in pf.iter_row_groups(columns=["id"]) for x in fr["id"]]
             if it_ids != [int(x) for x in df["id"]]:
@@ -627,6 +684,93 @@ def check_verify(case, root, pq, ctx=None, verbose=False):
     return {"problems": problems, "trivial": False, "vias": ["verify:" + attr]}
 
 
+
+# -------------------------------------------------------------------------------------------------- stream P
+# SEVERAL datasets opened one after the other in ONE interpreter: what a dataset shows must not depend on which datasets were
+# opened before it.  The pairs collide on purpose: same relative paths, same partition column names, same row counts - but the
+# partition values are of different KINDS (text '1' / integer 1, text 'True' / boolean, text '0.5' / float, ISO text / timestamp),
+# recorded only in each dataset's own metadata.
+PAIR_VALUES = {"int": ["1", "2", "10"], "bool": ["True", "False"], "float": ["0.5", "2.0", "-1.25"],
+               "time": ["2020-01-01T00:00:00", "2021-06-01T12:30:00"]}
+
+
+def gen_pair_case(rng, i):
+    kind = ["int", "bool", "float", "time"][i % 4]
+    vals = PAIR_VALUES[kind]
+    n = rng.choice([4, 6, 9])
+    col = rng.choice(["p", "k", "_grp"])
+    return {"pair": kind, "col": col, "texts": [rng.choice(vals) for _ in range(n)], "rgo": rng.choice([None, 2, 3]),
+            "first": rng.choice(["text", "typed"]), "scheme": "hive"}
+
+
+def check_pair(case, root, pq, ctx=None, verbose=False):
+    import numpy as np
+    import pandas as pd
+    from fastparquet import write, ParquetFile, writer
+    kind, col, texts = case["pair"], case["col"], case["texts"]
+    n = len(texts)
+    typed = {"int": lambda t: int(t), "bool": lambda t: t == "True", "float": float, "time": pd.Timestamp}[kind]
+    frames = {"text": pd.DataFrame({col: np.array(texts + [None], dtype=object)[:-1], "id": np.arange(n, dtype="int64")}),
+              "typed": pd.DataFrame({col: pd.Series([typed(t) for t in texts]), "id": np.arange(n, dtype="int64")})}
+    roots = {k: os.path.join(root, k) for k in frames}
+    problems = []
+    for k, f in frames.items():
+        write(roots[k], f, file_scheme="hive", partition_on=[col], row_group_offsets=case["rgo"])
+    want = {k: [L.canon(v) for v in frames[k][col]] for k in frames}
+    rels = {k: [rg.columns[0].file_path for rg in ParquetFile(roots[k]).row_groups] for k in frames}
+    if rels["text"] != rels["typed"]:
+        return {"problems": [], "trivial": True, "vias": []}      # the layouts do not collide: nothing to learn
+    order = [case["first"], "typed" if case["first"] == "text" else "text"]
+    vias = []
+
+    def look(k, via, fn):
+        try:
+            pf = fn()
+            out = pf.to_pandas()
+            got = {int(r): L.canon(v) for r, v in zip(out["id"], out[col])}
+            cats = sorted(json.dumps(L.canon(v)) for v in pf.cats.get(col, []))
+        except Exception as e:      # noqa
+            problems.append("%s of the %s dataset (opened after %s) raised %s: %s" % (via, k, [x for x in order if x != k][0], type(e).__name__, str(e)[:150]))
+            return
+        exp = {r: want[k][r] for r in (range(n) if via != "list" else sorted(got))}      # "list" opens the first two files only
+        if got != exp or not got:
+            bad = [r for r in exp if got.get(r) != exp[r]][:3]
+            problems.append("%s: the %s dataset shows %s = %r, written %r (its twin with the same layout was opened before or after it in this process)"
+                            % (via, k, col, [got.get(r) for r in bad], [exp[r] for r in bad]))
+        elif cats != sorted({json.dumps(c) for c in exp.values()}):
+            problems.append("%s: ParquetFile.cats[%r] of the %s dataset = %s" % (via, col, k, cats[:6]))
+
+    for rnd in (order, order[::-1]):
+        for via in ("directory", "list", "list-of-3+"):
+            for k in rnd:
+                files = [os.path.join(roots[k], r) for r in rels[k]]
+                if via == "directory":
+                    look(k, via, lambda: ParquetFile(roots[k]))
+                elif via == "list":
+                    look(k, via, lambda: ParquetFile(files[:2], root=roots[k]))
+                    continue
+                elif len(files) >= 3:
+                    look(k, via, lambda: ParquetFile(files, root=roots[k]))
+            vias.append("pair:" + via)
+    # without the summary files (listing + merge machinery), then merged again
+    for k in order:
+        for junk in ("_metadata", "_common_metadata"):
+            os.unlink(os.path.join(roots[k], junk))
+    for rnd in (order[::-1], order):
+        for k in rnd:
+            look(k, "directory without _metadata", lambda: ParquetFile(roots[k]))
+    for k in order:
+        files = [os.path.join(roots[k], r) for r in rels[k]]
+        look(k, "merge", lambda: (writer.merge(files, root=roots[k]), ParquetFile(roots[k]))[1])
+    vias += ["pair:directory without _metadata", "pair:merge"]
+    if problems and ctx is not None:
+        ctx.fail({"component": "several datasets in one process", "pair": kind, "stage": "values"}, {"pair_case": case}, "; ".join(problems[:4]))
+    if verbose:
+        for p in problems[:10]:
+            print("PROBLEM:", p)
+    return {"problems": problems, "trivial": False, "vias": vias}
+
+
 def _replayable(case):
     return {k: case.get(k) for k in ("shape", "files", "root_mode", "cat_mode", "verify", "bad_schema", "dup", "relative", "junk", "dir_slash", "colperm")}
 
@@ -645,6 +789,18 @@ def replay(rep):
         tmp = tempfile.mkdtemp(prefix="verif-C14-replay-", dir="/tmp")
         try:
             out = C.pmap(lambda c: check_verify(c, os.path.join(tmp, "v"), None, None, verbose=True)["problems"], [case["verify_case"]], nproc=1, job_timeout=300)[0]
+            bad = bool(out) or (isinstance(out, dict) and "__crashed__" in out)
+            print("PROPERTY FAILS" if bad else "property holds on this input", out if isinstance(out, dict) else "")
+            return 1 if bad else 0
+        finally:
+            shutil.rmtree(tmp, ignore_errors=True)
+    if "pair_case" in case:
+        tmp = tempfile.mkdtemp(prefix="verif-C14-replay-", dir="/tmp")
+        try:
+            print(json.dumps(case["pair_case"], indent=1))
+            print("two hive datasets with the same relative paths, partitioned on %r: values as text / as %s; opened one after the other in one process"
+                  % (case["pair_case"]["col"], case["pair_case"]["pair"]))
+            out = C.pmap(lambda c: check_pair(c, os.path.join(tmp, "p"), None, None, verbose=True)["problems"], [case["pair_case"]], nproc=1, job_timeout=300)[0]
             bad = bool(out) or (isinstance(out, dict) and "__crashed__" in out)
             print("PROPERTY FAILS" if bad else "property holds on this input", out if isinstance(out, dict) else "")
             return 1 if bad else 0
